@@ -23,6 +23,7 @@ type Env struct {
 	ex    *Exec
 	names map[string]Val
 	oldNames map[string]Val // values of names inside old(): parameters modified in place
+	entryOrd int            // ordinal of the loop whose invariant is elaborated (for $entry), -1 if none
 	pureCallbacks []string  // function-typed names callable in specs as deterministic functions
 	cur   *State
 	old   *State
@@ -33,7 +34,7 @@ type Env struct {
 }
 
 func (e *Env) child() *Env {
-	n := &Env{ex: e.ex, names: map[string]Val{}, cur: e.cur, old: e.old, pos: e.pos, pkg: e.pkg, oldNames: e.oldNames, pureCallbacks: e.pureCallbacks}
+	n := &Env{ex: e.ex, names: map[string]Val{}, cur: e.cur, old: e.old, pos: e.pos, pkg: e.pkg, oldNames: e.oldNames, pureCallbacks: e.pureCallbacks, entryOrd: e.entryOrd}
 	for k, v := range e.names {
 		n.names[k] = v
 	}
@@ -111,6 +112,29 @@ func (env *Env) elab(e SExpr) Val {
 		}
 		elabFail("unknown name %q", e.Name)
 	case *SOld:
+		if e.Entry {
+			// $entry(e): e in the state at entry of this loop (or of enclosing loop N for $entryN)
+			ord := env.entryOrd
+			if e.Ord >= 0 {
+				ord = e.Ord
+			}
+			var est *State
+			if env.cur != nil && env.cur.entries != nil {
+				est = env.cur.entries[ord]
+			}
+			if est == nil {
+				if e.Ord >= 0 && e.Ord != env.entryOrd {
+					elabFail("$entry%d: loop %d is not an enclosing loop here", e.Ord, e.Ord)
+				}
+				est = env.cur // the loop is being entered right now
+			}
+			n := env.child()
+			n.cur = est
+			v := n.elab(e.X)
+			env.quant = env.quant || n.quant
+			env.strs = env.strs || n.strs
+			return v
+		}
 		if env.old == nil {
 			elabFail("old() not available here")
 		}
